@@ -208,6 +208,12 @@ def eval_terms(terms):
     return s
 
 
+def allclose(a, b, tol=TOL):
+    """np.allclose that answers False (instead of raising) for outputs of different shapes"""
+    a, b = np.asarray(a), np.asarray(b)
+    return a.shape == b.shape and bool(np.allclose(a, b, rtol=tol, atol=tol))
+
+
 def close(a, b, tol=TOL):
     return abs(a - b) <= tol * max(1.0, abs(a), abs(b))
 
@@ -927,9 +933,10 @@ def check_mi_laws(ctx, case, jc, tr, got2, model):
     mi2 = mi_real(ctx, jc2, dict(case, stage='relabel', transformed=c2))
     if mi2 is None:
         return
-    if not np.allclose(mi, mi2, rtol=TOL, atol=TOL):
-        ctx.violation('mutual information changed under relabelling states / reordering frames: max diff %r'
-                      % float(np.abs(mi - mi2).max()), dict(case, stage='relabel', transformed=c2))
+    if not allclose(mi, mi2, TOL):
+        ctx.violation('mutual information changed under relabelling states / reordering frames: %s'
+                      % (('max diff %r' % float(np.abs(mi - mi2).max())) if mi.shape == mi2.shape else
+                         'shapes %s / %s' % (mi.shape, mi2.shape)), dict(case, stage='relabel', transformed=c2))
         return
     ctx.tag('mi-relabel+frame-perm')
 
@@ -1074,7 +1081,7 @@ def check_mi_matrix(ctx, case, model):
     if not np.array_equal(raw, raw2):
         ctx.violation('mi_matrix called twice with the same argument objects gave different results', case)
         return
-    if not np.allclose(scaled, pooled, rtol=TOL, atol=TOL) or not np.allclose(asfloat, pooled, rtol=TOL, atol=TOL):
+    if not allclose(scaled, pooled, TOL) or not allclose(asfloat, pooled, TOL):
         ctx.violation('mutual_information depends on the count dtype / a common factor of the counts '
                       '(uint32 vs int64 x 1000003 vs float64)', case)
         return
@@ -1223,11 +1230,7 @@ def check_wmi(ctx, case, model):
                 nrm = call_wmi(case, X, w, nfs, True)
             again = call_wmi(case, X, w, nfs, False)        # same argument objects, second call
     except BaseException as e:  # noqa
-        # integer weights that sum to exactly 1 (a one-hot distribution given as ints): the code keeps them
-        # integer and np.divide(..., out=<int array>) raises (known finding)
-        key = 'weighted-int-weights-sum-1' if case['mode'] == 'int-weights-sum-1' else None
-        ctx.violation('weighted_mi on a valid weighted sample raised %s: %s' % (type(e).__name__, str(e)[:80]),
-                      case, key=key)
+        ctx.violation('weighted_mi on a valid weighted sample raised %s: %s' % (type(e).__name__, str(e)[:80]), case)
         return
     if snap != (X.tobytes(), repr(w) if not isinstance(w, np.ndarray) else w.tobytes()):
         ctx.violation('weighted_mi modified its arguments', case)
@@ -1272,9 +1275,10 @@ def check_wmi(ctx, case, model):
         if not ok:
             return
         ctx.tag('weighted-uniform-vs-counts')
-        if not np.allclose(cm, raw, rtol=tol, atol=tol):
+        if not allclose(cm, raw, tol):
             ctx.violation('weighted_mi under uniform weights differs from the counts-based mutual information: '
-                          'max diff %r' % float(np.abs(cm - raw).max()), case)
+                          '%s' % (('max diff %r' % float(np.abs(cm - raw).max())) if cm.shape == raw.shape else
+                                  'shapes %s / %s' % (cm.shape, raw.shape)), case)
 
 
 def gen_ccn_case(rng, idx):
@@ -1810,9 +1814,9 @@ def run(ctx):
         times[k] = round(time.time() - t0, 2)
         t0 = time.time()
     # 1. valid streams: table == brute force == model; then the MI laws on the real table
-    cases = [gen_jc_case(rng, i) for i in range(ctx.n(230, 8000))]
+    cases = [gen_jc_case(rng, i) for i in range(ctx.n(230, 5000))]
     cases += [gen_wide_case(rng) for _ in range(ctx.n(40, 400))]
-    cases += [gen_jc_special(rng, i) for i in range(ctx.n(24, 300))]
+    cases += [gen_jc_special(rng, i) for i in range(ctx.n(24, 160))]
     ok, _ = jc_pipeline(ctx, cases, ctx.n(90, 3000), ctx.n(60, 2000))
     lap('jc+mi-laws+sched')
     if not ok:
